@@ -59,6 +59,20 @@ def poly(case):
                                             expected=complex(want) if cplxf else float(want)))
                         elif not (np.all(np.isreal(info.error_estimate)) and np.all(np.real(info.error_estimate) >= 0)):
                             bad.append(dict(method=method, n=n, order=order, problem='error estimate not real / negative', err=str(info.error_estimate)))
+        if case.get('n') == 0:
+            # n == 0 returns f(x, *args, **kwds) itself
+            def g(z, a, b=10.0, flag=False):
+                return np.sin(z) * a + b + (100.0 if flag else 0.0)
+            for x0 in (0.3, np.array([0.3, -1.2, 2.0])):
+                for method in sorted({case.get('method', 'central'), 'central', 'complex'}):
+                    try:
+                        got = nd.Derivative(g, n=0, method=method)(x0, 2.0, b=0.5, flag=True)
+                    except Exception as e:
+                        bad.append(dict(method=method, n=0, raised=repr(e)[:120])); continue
+                    want = g(x0, 2.0, b=0.5, flag=True)
+                    if np.shape(got) != np.shape(want) or not np.allclose(got, want, rtol=1e-12, atol=0):
+                        bad.append(dict(method=method, n=0, call='Derivative(g, n=0)(x, 2.0, b=0.5, flag=True)', x=np.asarray(x0).tolist(),
+                                        got=np.asarray(got).tolist(), expected=np.asarray(want).tolist()))
     return dict(reproduced=bool(bad), failing=bad[:4], statement='Derivative of a polynomial of the degree the pipeline is exact for must equal its n-th derivative')
 
 
